@@ -1,0 +1,6 @@
+//go:build !verif
+
+package header
+
+// The verification harness (build tag verif) adds a constructor for a Service that only has its
+// header Subscriber; production builds have nothing here.
